@@ -39,6 +39,7 @@ func vfE3CCRequests(maxMsg int) []vfCCReq {
 	return []vfCCReq{
 		// 200, JSON documents
 		{Method: "GET", URL: "/info"},
+		{Method: "GET", URL: "/no/such/path"}, // 404; second in the list so that the first pair reported is a short one
 		{Method: "GET", URL: "/stats?format=json&include_mem=false"},
 		{Method: "GET", URL: "/stats?format=json&include_mem=false&include_clients=false"},
 		{Method: "GET", URL: "/stats?format=json&include_mem=0&topic=cc_t03"},
@@ -74,7 +75,6 @@ func vfE3CCRequests(maxMsg int) []vfCCReq {
 		{Method: "POST", URL: "/pub?topic=cc_t00&defer=abc", Body: "x"},
 		{Method: "PUT", URL: "/debug/setblockrate?rate=abc"},
 		// 404
-		{Method: "GET", URL: "/no/such/path"},
 		{Method: "GET", URL: "/statsx"},
 		{Method: "POST", URL: "/topic/delete?topic=cc_nosuch"},
 		{Method: "POST", URL: "/topic/empty?topic=cc_nosuch"},
@@ -139,7 +139,9 @@ func TestVerifE3HTTPConcurrent(t *testing.T) {
 	g.target(plain, r)
 
 	tlsreq := &vfCCTarget{Name: "nsqd-tlsreq", Handler: newHTTPServer(nsqd, false, true), Reqs: []vfCCReq{
-		reqs[0], reqs[1], reqs[17], reqs[25], reqs[33], reqs[39], reqs[43]}}
+		{Method: "GET", URL: "/info"}, {Method: "GET", URL: "/stats?format=json&include_mem=false"}, {Method: "GET", URL: "/ping"},
+		{Method: "POST", URL: "/topic/pause"}, {Method: "GET", URL: "/no/such/path"}, {Method: "GET", URL: "/pub?topic=cc_t00"},
+		{Method: "POST", URL: "/pub?topic=cc_t00", Body: "x"}}}
 	g.target(tlsreq, r)
 
 	exited := make(chan struct{})
